@@ -422,10 +422,40 @@ pub fn c06(tier: &str, seed: u64) {
         distinct.push(s.clone());
       }
     }
+    // RECEIVED points need not come from this dealer: any point of the polynomials with an x not yet
+    // present is a share - including x = 0 (the secret itself), p - 1 and the limb boundaries
+    let mut crafted: Vec<Fp> = Vec::new();
+    if k >= 1 && t <= 100 && g.chance(1, 2) {
+      stat("oracle.C06.crafted_points");
+      let one = BigUint::from(1u8);
+      let specials = [BigUint::from(0u8), &p - &one, &one << 64, &one << 128, (&one << 64) - &one, BigUint::from(2u8)];
+      let mk = |v: &BigUint| {
+        let mut b = v.to_bytes_le();
+        b.resize(24, 0);
+        let a: [u8; 24] = b.try_into().unwrap();
+        fp_of(&a).unwrap()
+      };
+      for i in 0..g.range(1, 3) {
+        let x = if i == 0 && g.chance(1, 2) { specials[0].clone() } else { g.pick(&specials).clone() };
+        let sh = Share { x: mk(&x), y: (0..k).map(|j| mk(&eval_big(&polys[j], &x, &p))).collect() };
+        if !distinct.iter().any(|d| d.x == sh.x) {
+          crafted.push(sh.x);
+          distinct.push(sh);
+        }
+      }
+    }
     let want: Vec<u8> = secret[..24 * k].to_vec();
-    for _ in 0..3 {
+    for rep in 0..3 {
       let mut sel = distinct.clone();
       g.shuffle(&mut sel);
+      // a crafted point among the first threshold-many (they are the ones interpolated)
+      if rep < 2 {
+        if let Some(cx) = crafted.get(rep) {
+          let i = sel.iter().position(|d| &d.x == cx).unwrap();
+          let to = g.below((t as u64).min(sel.len() as u64).max(1)) as usize;
+          sel.swap(i, to);
+        }
+      }
       let enough = sel.len() >= t as usize;
       if enough && g.chance(1, 2) {
         sel.truncate(t as usize);
@@ -438,7 +468,7 @@ pub fn c06(tier: &str, seed: u64) {
       }
       let res = std::panic::catch_unwind(std::panic::AssertUnwindSafe(|| sharks.recover(&sel).map_err(|e| e.to_string())));
       match res {
-        Err(_) => fail("recover_panic", &[("t", t.to_string())]),
+        Err(_) => fail("recover_panic", &[("t", t.to_string()), ("secret", hex(&want)), ("shares", sel.iter().map(|s| hex(&Vec::from(s))).collect::<Vec<_>>().join(","))]),
         Ok(Ok(v)) => {
           // independent interpolation over the first t distinct points
           let mut first: Vec<&Share> = Vec::new();
